@@ -113,7 +113,7 @@ pub fn decode_case(data: &[u8]) -> Option<CaseDesc> {
         let w = u.int_in_range(1..=4usize)?;
         let h = u.int_in_range(1..=4usize)?;
         let n = w * h;
-        let aff = if kind >= 2 { Some(Aff { sym: u.int_in_range(0..=7u8)?, tx: u.int_in_range(-1_000_000..=1_000_000)?, ty: u.int_in_range(-1_000_000..=1_000_000)?, k: u.int_in_range(-20..=20)? }) } else { None };
+        let aff = if kind >= 2 { Some(Aff { sym: u.int_in_range(0..=7u8)?, tx: u.int_in_range(-1_000_000..=1_000_000)?, ty: u.int_in_range(-1_000_000..=1_000_000)?, k: u.int_in_range(-20..=20)?, kx: 0 }) } else { None };
         let merge = [u.arbitrary()?, u.arbitrary()?, u.arbitrary()?];
         let shape = if kind % 2 == 0 {
             let mut cells: [Vec<bool>; 3] = [vec![], vec![], vec![]];
@@ -153,8 +153,19 @@ pub fn decode_case(data: &[u8]) -> Option<CaseDesc> {
     r.ok()
 }
 
-/// in-target oracle for fz_bool: C01, C02, C04, C05 and one law by the bits
-pub fn bool_oracle(desc: &CaseDesc) -> Result<(), (String, Failure)> {
+/// which property's oracle the fuzz targets apply (env VERIF_FUZZ_PROP; default: all that the target serves)
+pub fn selected_property() -> Option<String> {
+    use std::sync::OnceLock;
+    static SEL: OnceLock<Option<String>> = OnceLock::new();
+    SEL.get_or_init(|| std::env::var("VERIF_FUZZ_PROP").ok().filter(|s| !s.is_empty())).clone()
+}
+
+fn want(sel: &Option<String>, id: &str) -> bool {
+    sel.as_deref().map(|s| s == id).unwrap_or(true)
+}
+
+/// in-target oracle for fz_bool: C01, C02, C04, C05 and C06-C09 (all, or the one selected)
+pub fn bool_oracle_sel(desc: &CaseDesc, sel: &Option<String>) -> Result<(), (String, Failure)> {
     use crate::exec::Prec;
     use crate::props::{laws, result};
     let case = match desc.expand(false) {
@@ -162,29 +173,93 @@ pub fn bool_oracle(desc: &CaseDesc) -> Result<(), (String, Failure)> {
         Err(_) => return Ok(()),
     };
     let mut o = Obs::default();
-    result::c01(&case, &mut o, Prec::F64).map_err(|f| ("C01".to_string(), f))?;
-    result::c02(&case, &mut o, Prec::F64).map_err(|f| ("C02".to_string(), f))?;
-    result::c04(&case, &mut o, Prec::F64).map_err(|f| ("C04".to_string(), f))?;
-    result::c05(&case, &mut o, Prec::F64).map_err(|f| ("C05".to_string(), f))?;
-    match case.bits >> 61 {
-        0 | 1 => laws::c06(&case, &mut o, Prec::F64).map_err(|f| ("C06".to_string(), f))?,
-        2 | 3 => laws::c07(&case, &mut o, Prec::F64).map_err(|f| ("C07".to_string(), f))?,
-        4 | 5 => laws::c08(&case, &mut o, Prec::F64).map_err(|f| ("C08".to_string(), f))?,
-        _ => laws::c09(&case, &mut o, Prec::F64).map_err(|f| ("C09".to_string(), f))?,
+    if want(sel, "C01") {
+        result::c01(&case, &mut o, Prec::F64).map_err(|f| ("C01".to_string(), f))?;
+    }
+    if want(sel, "C02") {
+        result::c02(&case, &mut o, Prec::F64).map_err(|f| ("C02".to_string(), f))?;
+    }
+    if want(sel, "C04") {
+        result::c04(&case, &mut o, Prec::F64).map_err(|f| ("C04".to_string(), f))?;
+    }
+    if want(sel, "C05") {
+        result::c05(&case, &mut o, Prec::F64).map_err(|f| ("C05".to_string(), f))?;
+    }
+    let one_law = sel.is_none();
+    let pick = case.bits >> 61;
+    if (one_law && pick < 2) || sel.as_deref() == Some("C06") {
+        laws::c06(&case, &mut o, Prec::F64).map_err(|f| ("C06".to_string(), f))?;
+    }
+    if (one_law && (2..4).contains(&pick)) || sel.as_deref() == Some("C07") {
+        laws::c07(&case, &mut o, Prec::F64).map_err(|f| ("C07".to_string(), f))?;
+    }
+    if (one_law && (4..6).contains(&pick)) || sel.as_deref() == Some("C08") {
+        laws::c08(&case, &mut o, Prec::F64).map_err(|f| ("C08".to_string(), f))?;
+    }
+    if (one_law && pick >= 6) || sel.as_deref() == Some("C09") {
+        laws::c09(&case, &mut o, Prec::F64).map_err(|f| ("C09".to_string(), f))?;
     }
     Ok(())
 }
 
-/// in-target oracle for fz_stage: C13, C14, C15
-pub fn stage_oracle(desc: &CaseDesc) -> Result<(), (String, Failure)> {
+pub fn bool_oracle(desc: &CaseDesc) -> Result<(), (String, Failure)> {
+    bool_oracle_sel(desc, &selected_property())
+}
+
+/// in-target oracle for fz_stage: C13, C14, C15 (all, or the one selected)
+pub fn stage_oracle_sel(desc: &CaseDesc, sel: &Option<String>) -> Result<(), (String, Failure)> {
     use crate::props::stage;
     let case = match desc.expand(false) {
         Ok(c) => c,
         Err(_) => return Ok(()),
     };
     let mut o = Obs::default();
-    stage::c13(&case, &mut o).map_err(|f| ("C13".to_string(), f))?;
-    stage::c14(&case, &mut o).map_err(|f| ("C14".to_string(), f))?;
-    stage::c15(&case, &mut o).map_err(|f| ("C15".to_string(), f))?;
+    if want(sel, "C13") {
+        stage::c13(&case, &mut o).map_err(|f| ("C13".to_string(), f))?;
+    }
+    if want(sel, "C14") {
+        stage::c14(&case, &mut o).map_err(|f| ("C14".to_string(), f))?;
+    }
+    if want(sel, "C15") {
+        stage::c15(&case, &mut o).map_err(|f| ("C15".to_string(), f))?;
+    }
     Ok(())
+}
+
+pub fn stage_oracle(desc: &CaseDesc) -> Result<(), (String, Failure)> {
+    stage_oracle_sel(desc, &selected_property())
+}
+
+pub fn target_for(id: &str) -> Option<&'static str> {
+    match id {
+        "C01" | "C02" | "C04" | "C05" | "C06" | "C07" | "C08" | "C09" => Some("fz_bool"),
+        "C13" | "C14" | "C15" => Some("fz_stage"),
+        "C16" => Some("fz_segpair"),
+        "C17" => Some("fz_splay"),
+        _ => None,
+    }
+}
+
+/// evaluate raw fuzzer bytes with the oracle of one property, outside libFuzzer (replay of artifacts)
+pub fn replay_bytes(target: &str, id: &str, data: &[u8]) -> Result<String, (String, Failure)> {
+    let sel = Some(id.to_string());
+    match target {
+        "fz_bool" => match decode_case(data) {
+            Some(d) => bool_oracle_sel(&d, &sel).map(|_| format!("{:?}", d)),
+            None => Ok("(bytes do not decode to a case)".to_string()),
+        },
+        "fz_stage" => match decode_case(data) {
+            Some(d) => stage_oracle_sel(&d, &sel).map(|_| format!("{:?}", d)),
+            None => Ok("(bytes do not decode to a case)".to_string()),
+        },
+        "fz_segpair" => match decode_segpair(data) {
+            Some(d) => crate::props::segpair::eval_pair(&d, false).result.map(|_| format!("{:?}", d)).map_err(|f| ("C16".to_string(), f)),
+            None => Ok("(bytes do not decode to a segment pair)".to_string()),
+        },
+        "fz_splay" => match decode_history(data) {
+            Some(h) => crate::props::splay::eval_history(&h, false).result.map(|_| crate::props::splay::history_to_text(&h)).map_err(|f| ("C17".to_string(), f)),
+            None => Ok("(bytes do not decode to a history)".to_string()),
+        },
+        _ => Ok("(unknown target)".to_string()),
+    }
 }
